@@ -910,6 +910,16 @@ func (env *SpecEnv) evalCall(n *Node) Val {
 		ex.splitFuns()
 		x, sp, k := env.eval(args[0]).L[0], env.eval(args[1]).L[0], env.eval(args[2]).L[0]
 		return Val{T: types.Typ[types.String], L: []string{app("ssub", x, app("split_b", x, sp, k), app("split_e", x, sp, k))}}
+	case "flagIsSet":
+		x := env.eval(args[0])
+		if x.lit == nil {
+			sfail("flagIsSet needs a string literal")
+		}
+		t, ok := ex.flagSet[*x.lit]
+		if !ok {
+			sfail("flagIsSet(%q): no flag.FlagSet.Parse with visible registrations before this point", *x.lit)
+		}
+		return mathBool(t)
 	case "flagLeftover":
 		return mathInt(ex.flagLeft(env.cur))
 	case "ospid":
